@@ -838,6 +838,11 @@ def gen_cli(repo):
     if not (re.search(r'serde_json::to_string\(&final_state\)', body) and re.search(r'final_state\s*\.score\(\)', body)
             and re.search(r'svg::save\([^,]+,\s*&final_state\.as_svg\(\)\)', body)):
         notes.append('analyse_state: logged / serialised / drawn state is not final_state')
+    # the declared-but-unused `--start-config` option: the structure that is optimised and written
+    # comes from `from_group` of the requested group only
+    n_sc = len(re.findall(r'\bstart_config\b', main))
+    L.append('/-- occurrences of the identifier `start_config` in main.rs (1 = the option is declared and never read) -/')
+    L.append('def cliStartConfigUses : Nat := %d' % n_sc)
     L.append('/-- the optimiser overrides of the three stages of `analyse_state`, in order -/')
     L.append('def cliStages : List (List Ovr) := [' + ', '.join('[' + ', '.join(st) + ']' for st in stages) + ']')
     L.append('/-- the reduction applied to the replicas -/')
